@@ -31,10 +31,12 @@
 #include "configuration.h"
 #include "message.h"
 
+#include <fcntl.h>
 #include <limits.h>
 #include <stdio.h>
 #include <stdlib.h>
 #include <string.h>
+#include <unistd.h>
 
 
 
@@ -55,7 +57,9 @@ int snoopy_output_fileoutput (char const * const logMessage, char const * const 
 {
     char   filePathBuf[PATH_MAX] = {'\0'};
     char * filePath = filePathBuf;
-    FILE  *fp;
+    int    fd;
+    char  *lineBuf;
+    size_t lineLen;
     int    charCount;
 
     // Check if output file is properly configured
@@ -67,13 +71,18 @@ int snoopy_output_fileoutput (char const * const logMessage, char const * const 
     snoopy_message_generateFromFormat(filePath, PATH_MAX, PATH_MAX, arg);
 
     // Try to open file in append mode
-    fp = fopen(filePath, "a");
-    if (NULL == fp) {
+    fd = open(filePath, O_WRONLY|O_CREAT|O_APPEND, 0666);
+    if (-1 == fd) {
         return SNOOPY_OUTPUT_FAILURE;
     }
 
-    // Try to print to file
-    charCount = fprintf(fp, "%s\n", logMessage);
-    fclose(fp);
+    // Append the whole line with a single write(), so that concurrent writers cannot interleave within it
+    lineLen = strlen(logMessage) + 1;
+    lineBuf = malloc(lineLen);
+    memcpy(lineBuf, logMessage, lineLen - 1);
+    lineBuf[lineLen-1] = '\n';
+    charCount = (int) write(fd, lineBuf, lineLen);
+    free(lineBuf);
+    close(fd);
     return charCount;
 }
